@@ -15,7 +15,9 @@ Record probe := Probe {
 Global Instance probe_eq_dec : EqDecision probe.
 Proof. solve_decision. Defined.
 
-Record step := Step { s_admin : bool; s_arg : initarg; o_ok : bool; o_cfg_changed : bool; o_probe : probe }.
+(* [o_stored_as_asked]: after a rejected initialisation the stored bytes are what they were; after an accepted one given as
+   JSON they are the bytes of that request (whatever was stored before, the same bytes or others) *)
+Record step := Step { s_admin : bool; s_arg : initarg; o_ok : bool; o_stored_as_asked : bool; o_probe : probe }.
 Record case := mkCase { c_token : bool; c_steps : list step }.
 
 Definition wal (w : option (list N)) : list N := match w with Some a => a | None => [] end.
@@ -52,7 +54,7 @@ Fixpoint p_steps (tok : bool) (prev : probe) (l : list step) : bool :=
      then s_admin s && match decode (s_arg s) with
                        | Some v => valid_for tok v && bool_decide (o_probe s = probe_for tok v)
                        | None => false end
-     else negb (o_cfg_changed s) && bool_decide (o_probe s = prev)) && p_steps tok (o_probe s) r
+     else bool_decide (o_probe s = prev)) && o_stored_as_asked s && p_steps tok (o_probe s) r
   end.
 Definition holds (c : case) : bool := p_steps (c_token c) no_probe (c_steps c).
 
